@@ -39,6 +39,35 @@ type Parser struct {
 	line          int
 	blockHandlers map[string]blockHandlerFunc
 	openBlocks    []string // names of the blocks being parsed, outermost first
+	depth         int      // current nesting of expressions
+}
+
+// maxNestingDepth bounds the nesting of tags and of expressions and the length of operator chains in
+// a template, and with it the recursion of the parser and the renderer: the Go stack is finite and
+// exhausting it kills the process
+const maxNestingDepth = 10000
+
+var errTooDeep = fmt.Errorf("template is nested more than %d levels deep", maxNestingDepth)
+
+// checkTagNesting refuses a token stream whose body tags are open more than maxNestingDepth deep
+func checkTagNesting(tokens []Token) error {
+	depth := 0
+	for i := 0; i+1 < len(tokens); i++ {
+		if !isBlockStartToken(tokens[i].Type) || tokens[i+1].Type != TOKEN_NAME {
+			continue
+		}
+		switch tokens[i+1].Value {
+		case "if", "for", "block", "macro", "apply", "spaceless":
+			if depth++; depth > maxNestingDepth {
+				return errTooDeep
+			}
+		case "endif", "endfor", "endblock", "endmacro", "endapply", "endspaceless":
+			if depth > 0 {
+				depth--
+			}
+		}
+	}
+	return nil
 }
 
 type blockHandlerFunc func(*Parser) (Node, error)
@@ -57,6 +86,7 @@ func (p *Parser) Parse(source string) (Node, error) {
 	p.line = 1
 	p.tokenIndex = 0
 	p.openBlocks = nil
+	p.depth = 0
 
 	// Initialize default block handlers
 	p.initBlockHandlers()
@@ -92,6 +122,11 @@ func (p *Parser) Parse(source string) (Node, error) {
 
 	// Template tokenization complete
 	// Whitespace control has already been applied by the tokenizer
+
+	if err := checkTagNesting(p.tokens); err != nil {
+		p.tokens = nil
+		return nil, fmt.Errorf("parsing error: %w", err)
+	}
 
 	// Parse tokens into nodes
 	nodes, err := p.parseOuterTemplate()
@@ -317,6 +352,12 @@ func (p *Parser) parseOuterTemplate() ([]Node, error) {
 
 // Parse an expression
 func (p *Parser) parseExpression() (Node, error) {
+	if p.depth++; p.depth > maxNestingDepth {
+		p.depth--
+		return nil, errTooDeep
+	}
+	defer func() { p.depth-- }()
+
 	// Binary operators by precedence climbing, lowest level first
 	expr, err := p.parseBinaryLevel(PREC_OR)
 	if err != nil {
@@ -342,7 +383,10 @@ func (p *Parser) parseOperand() (Node, error) {
 		return nil, err
 	}
 
-	for p.tokenIndex < len(p.tokens) && p.tokens[p.tokenIndex].Type == TOKEN_PUNCTUATION {
+	for links := 0; p.tokenIndex < len(p.tokens) && p.tokens[p.tokenIndex].Type == TOKEN_PUNCTUATION; links++ {
+		if links >= maxNestingDepth {
+			return nil, errTooDeep // each postfix operator puts the operand one level deeper
+		}
 		switch p.tokens[p.tokenIndex].Value {
 		case "[":
 			line := p.tokens[p.tokenIndex].Line
@@ -488,10 +532,13 @@ func (p *Parser) parseBinaryLevel(minPrec int) (Node, error) {
 		return nil, err
 	}
 
-	for {
+	for links := 0; ; links++ {
 		operator, width, ok := p.peekBinaryOperator()
 		if !ok {
 			break
+		}
+		if links >= maxNestingDepth {
+			return nil, errTooDeep // each operator of a chain puts the left operand one level deeper
 		}
 		line := p.tokens[p.tokenIndex].Line
 
@@ -600,7 +647,12 @@ func (p *Parser) parseSimpleExpression() (Node, error) {
 		line := token.Line
 
 		// Parse the operand
+		if p.depth++; p.depth > maxNestingDepth {
+			p.depth--
+			return nil, errTooDeep
+		}
 		operand, err := p.parseSimpleExpression()
+		p.depth--
 		if err != nil {
 			return nil, err
 		}
@@ -698,9 +750,12 @@ func (p *Parser) parseSimpleExpression() (Node, error) {
 		var result Node = NewVariableNode(varName, varLine)
 
 		// Check for attribute access (obj.attr) or method calls (obj.method())
-		for p.tokenIndex < len(p.tokens) &&
+		for links := 0; p.tokenIndex < len(p.tokens) &&
 			p.tokens[p.tokenIndex].Type == TOKEN_PUNCTUATION &&
-			p.tokens[p.tokenIndex].Value == "." {
+			p.tokens[p.tokenIndex].Value == "."; links++ {
+			if links >= maxNestingDepth {
+				return nil, errTooDeep
+			}
 
 			p.tokenIndex++
 
